@@ -1,6 +1,7 @@
 """C01 - a successful bump yields a valid, strictly greater version."""
 from campaigns.testcmd import TestCmd
 from campaigns.life import Life
+from campaigns.tags import Tags
 
 PROPERTY = "C01"
 LEVEL = "exploration"
@@ -12,7 +13,8 @@ ASSUMPTIONS = ["reference recogniser (ref.pattern) and vendored packaging.versio
 COMPONENTS = {"bumpver cli test/update": "real", "clock": "simulated", "files": "real scratch directory",
               "VCS": "FakeRepo or none"}
 CAMPAIGNS = [TestCmd("C01", quick=20000, thorough=800000, sv_rate=0.35),
-             Life("C01", quick=6000, thorough=300000, sv_rate=0.35, dry_rate=0.3)]
+             Life("C01", quick=6000, thorough=300000, sv_rate=0.35, dry_rate=0.3),
+             Tags("C01", quick=3000, thorough=100000)]
 
 
 def sanity_gate(tier, total):
